@@ -1186,7 +1186,7 @@ func (b engineBug) String() string { return fmt.Sprintf("%v\n%s", b.val, b.stack
 
 func wrapBug(r interface{}) interface{} {
 	switch r.(type) {
-	case pathEnd, threadKilled, unsupported, boundExceeded, initAbort, engineBug, *GoPanic:
+	case pathEnd, threadKilled, unsupported, boundExceeded, initAbort, engineBug, crashUnwind, *GoPanic:
 		return r
 	}
 	return engineBug{val: r, stack: stackString()}
@@ -1194,7 +1194,7 @@ func wrapBug(r interface{}) interface{} {
 
 func wrapBugT(th *Thread, r interface{}) interface{} {
 	switch r.(type) {
-	case pathEnd, threadKilled, unsupported, boundExceeded, initAbort, engineBug, *GoPanic:
+	case pathEnd, threadKilled, unsupported, boundExceeded, initAbort, engineBug, crashUnwind, *GoPanic:
 		return r
 	}
 	return engineBug{val: r, stack: "interpreted stack:\n" + th.stackTrace() + stackString()}
